@@ -502,7 +502,7 @@ class Checker:
 RACE_PROPERTIES = ('C19',)
 SHARED_STATE_PROPERTIES = ('C05', 'C19')
 PROPERTY_BOUNDED = {'C07': 'RoundTripFamily', 'C01': ['TreeFamily', 'ParserFamily'], 'C10': 'MustacheFamily', 'C09': 'CsvFamily', 'C13': 'LexemeFamily', 'C05': 'HistoryFamily', 'C18': ['DiscoveryFamily', 'CollectionFamily'], 'C19': ['EvaluatorFamily', 'MustacheFamily'], 'C03': ['EvaluatorFamily', 'MustacheFamily'], 'C08': 'FunctionFamily', 'C02': 'ParserFamily', 'C04': 'TokenizerFamily', 'C12': 'TokenizerFamily', 'C15': 'OptionsFamily', 'C14': 'QuoteFamily', 'C16': 'SymbolFamily',
-                    'C20': 'VariantFamily', 'C06': 'OpsFamily', 'C11': 'ScannerFamily'}
+                    'C20': 'VariantFamily', 'C06': 'OpsFamily', 'C11': 'ScannerFamily', 'C17': 'CharMapFamily'}
 
 ASSUMPTIONS = [
     'A0 trusted computing base: go/ssa front end, this engine, the SMT solvers',
